@@ -40,12 +40,19 @@ T0 = 1_600_000_000_000_000
 KMAX = 64
 
 
-def base_points():
-    return [
+def base_points(big=False):
+    pts = [
         MP(T0, "m", {"k": "a", "j": "x,y"}, {"f": 1}),
         MP(T0 + 500_000, "n", {"k": "b"}, {"f": None, "g": -2.5}),
         MP(T0 + 1_000_000, "m", {"k": "a"}, {}),
     ]
+    if big:  # thorough: six stored rows, one with a line break inside a quoted value, one out of time order
+        pts += [
+            MP(T0 + 1_200_000, "n", {"k": "a", "j": "l1\r\nl2"}, {"f": 3}),
+            MP(T0 + 1_100_000, "m", {"k": "c"}, {"g": 0}),
+            MP(T0 + 1_900_000, "q", {}, {"f": -1}),
+        ]
+    return pts
 
 
 def to_point(mp):
@@ -128,9 +135,9 @@ def run_op(db, op):
         db.measurement("m").remove_all()
 
 
-def outcomes(op):
+def outcomes(op, big=False):
     """List of acceptable contents (lists of MP): old, intermediate prefixes, new."""
-    old = base_points()
+    old = base_points(big)
     new1 = MP(T0 + 2_000_000, "m", {"k": "c"}, {"f": 7})
     new2 = MP(T0 + 2_500_000, "n", {"k": "d\ne"}, {"f": 8})
     if op == "insert":
@@ -148,7 +155,7 @@ def outcomes(op):
         return [old, old + [new1], old + [new1, new2], old + [new1, new2, new3]]
     if op in ("update_callable", "handle_update"):
         ch = make_change(fields={"f": 9}, tags={"z": "1"})
-        return [old, [ch(p.copy()) if p.tags.get("k") == "a" else p for p in old]]
+        return [old, [ch(p.copy()) if (p.tags.get("k") == "a" and (op != "handle_update" or p.m == "m")) else p for p in old]]
     if op == "update_time":
         return [old, [make_change(time=T0 - 7_000_000)(p.copy()) if p.tags.get("k") == "a" else p for p in old]]
     if op == "remove_filtered":
@@ -173,16 +180,20 @@ def outcomes(op):
         return [old, old + [MP(T0 - 5, "m", {"k": "c"}, {"f": 7})]]
     if op == "search_only":
         return [old]
-    if op in ("remove_suffix", "handle_remove_suffix"):
-        return [old, old[:2]]
+    if op == "remove_everything":
+        return [old, [p for p in old if "k" not in p.tags]]
+    if op == "remove_suffix":
+        return [old, [p for p in old if not p.t >= T0 + 1_000_000]]
+    if op == "handle_remove_suffix":
+        return [old, [p for p in old if not (p.m == "m" and p.t > T0)]]
     if op == "remove_suffix2":
-        return [old, old[:1]]
+        return [old, [p for p in old if not p.t > T0]]
     if op == "remove_prefix":
-        return [old, old[1:]]
+        return [old, [p for p in old if not p.t < T0 + 500_000]]
     if op == "update_last":
-        return [old, old[:2] + [make_change(fields={"f": 9})(old[2].copy())]]
+        return [old, [make_change(fields={"f": 9})(p.copy()) if p.t >= T0 + 1_000_000 else p for p in old]]
     if op == "update_first":
-        return [old, [make_change(fields={"f": 9})(old[0].copy())] + old[1:]]
+        return [old, [make_change(fields={"f": 9})(p.copy()) if p.t <= T0 else p for p in old]]
     return [old, []]
 
 
@@ -206,7 +217,7 @@ def h_crash(params):
     mode = params.get("mode", "crash")
 
     def body(h):
-        for mp in base_points():
+        for mp in base_points(params.get("big", False)):
             h.db.insert(to_point(mp))
         if params.get("pre_rewrite"):
             # an earlier, completed rewrite: the primary handle was closed and reopened, a staging file came and went
@@ -246,7 +257,7 @@ def h_crash(params):
         lpe.note("io_calls_before_fault", log)
         if mode == "oserror" and fired[2] == "after" and not any(w in fired[1] for w in (".flush", "fsync", ".close", ".write", "truncate")):
             raise lpe.Infeasible()  # "after it took effect" only for write/flush/fsync/truncate/close
-        oks = outcomes(op)
+        oks = outcomes(op, params.get("big", False))
         where = f"{op}: {mode} {fired[2]} boundary {fired[0]} ({fired[1]})"
         if mode == "crash":
             _check_disk(h, oks, where)
@@ -377,5 +388,10 @@ def obligations(tier):
     for op in W_OPS:
         for ai in (True, False):
             obs.append({"id": f"crash/{op}/{'ai' if ai else 'noai'}/mode-w+", "harness": "h_crash", "params": {"op": op, "ai": ai, "access_mode": "w+"}, "budget_s": 120})
+    if tier == "thorough":
+        for op in OPS:
+            for ai in (True, False):
+                for rew in (False, True):
+                    obs.append({"id": f"crash/{op}/{'ai' if ai else 'noai'}/six-rows{'/after-rewrite' if rew else ''}", "harness": "h_crash", "params": {"op": op, "ai": ai, "big": True, "pre_rewrite": rew}, "budget_s": 300})
     obs.append({"id": "twin/crash", "harness": "h_crash", "params": {"op": "update", "ai": True, "twin": True}, "budget_s": 60})
     return obs
